@@ -72,9 +72,12 @@ def applyM (e : EnfP) (op : MOp) : Option (EnfP × Enf.MRes) :=
   | none => none
   | some (b', res) =>
       let e' : EnfP := { e with base := b' }
-      match res with
-      | .ok true => some ((delta e.base op e').syncCache, res)
-      | _ => some (e'.syncCache, res)
+      match res, op with
+      | .ok true, _ => some ((delta e.base op e').syncCache, res)
+      -- a batch of grouping rules that is rejected at a too-short rule (finding D13) has built the
+      -- links of the rules before it: the pattern managers have them too
+      | .err true, .addMany "g" _ _ _ => some ((delta e.base op e').syncCache, res)
+      | _, _ => some (e'.syncCache, res)
 
 def loadPolicy (e : EnfP) : EnfP × Bool :=
   let (b', ok) := e.base.loadPolicy
